@@ -63,6 +63,7 @@ class Unit:
         self.verus_args = []
         self.config = []
         self.gsubsts = []
+        self.rules_from = []
         self.parts = []  # ('raw', text) | ('item', ItemSpec)
         self._parse()
 
@@ -96,6 +97,8 @@ class Unit:
                     self.verus_args += rest.split()
                 elif word == "config":
                     self.config += rest.split()
+                elif word == "rules-from":
+                    self.rules_from += rest.split()
                 elif word == "gsubst":
                     self.gsubsts.append(self._parse_subst(rest, ln))
                 elif word == "include":
@@ -215,7 +218,7 @@ class Unit:
             text = rw.r2_asserts(text, log)
             text = rw.r6_config(text, set(self.config), log)
             for r in spec.rules:
-                fn = all_rules().get(r)
+                fn = all_rules(self.name, self.rules_from).get(r)
                 if fn is None:
                     raise UnitError("unknown rule %s" % r)
                 text = fn(text, log)
@@ -290,8 +293,18 @@ class Unit:
             if t.text == "{" or t.text == ";":
                 break
             j += 1
-        if j >= len(st) or st[j].text != "{":
+        if j >= len(st):
             raise UnitError("%s: no body" % sid_base)
+        if st[j].text == ";":
+            # a bodiless trait method: only a contract can be spliced (before the `;`)
+            outp = text
+            for sp in spec.splices:
+                if sp[0] != "contract":
+                    raise UnitError("%s: only `contract` applies to a bodiless method" % sid_base)
+                sid = sid_base + "/contract"
+                info["splices"].append(sid)
+                outp = outp[:st[j].start] + "/*+vx:%s*/\n%s\n/*-vx*/ " % (sid, "\n".join(sp[3])) + outp[st[j].start:]
+            return outp, 0
         body_open = j
         body_close = match_close(st, j)
         # loops, in order of appearance
@@ -410,14 +423,17 @@ def fuzzy_find(st, pat, lo, hi):
     return [v[1] for v in cands.values() if v[0][0] == dmin]
 
 
-_RULES = None
+_CORE = None
+_EXTRA = None
 
 
-def all_rules():
-    """catalogue rules selectable with `//@ rules`; extra rule modules live in vxlib/rules_extra/*.py (each exports RULES)"""
-    global _RULES
-    if _RULES is None:
-        _RULES = {"R4a": rw.r4a_enumerate, "R4c": rw.r4c_rangefrom, "R5": rw.r5_refpattern, "R14": rw.r14_mut_self}
+def _load_rules():
+    global _CORE, _EXTRA
+    if _CORE is None:
+        _CORE = {"R4a": rw.r4a_enumerate, "R4c": rw.r4c_rangefrom, "R5": rw.r5_refpattern, "R14": rw.r14_mut_self,
+                 "R4b": rw.r4b_array_for, "R4e": rw.r4e_enumerate_skip, "R4f": rw.r4f_iter_for, "R4g": rw.r4g_slice_for,
+                 "R12": rw.r12_tryinto_usize, "R15": rw.r15_cfg_test}
+        _EXTRA = {}
         import importlib
         import glob as _g
         d = os.path.join(os.path.dirname(os.path.abspath(__file__)), "rules_extra")
@@ -426,5 +442,38 @@ def all_rules():
             if name.startswith("_"):
                 continue
             mod = importlib.import_module("vxlib.rules_extra." + name)
-            _RULES.update(getattr(mod, "RULES", {}))
-    return _RULES
+            _EXTRA[name] = dict(getattr(mod, "RULES", {}))
+    return _CORE, _EXTRA
+
+
+def all_rules(unit_name=None, prefer=()):
+    """Rule resolution for one unit.  Names may be qualified (`ujoin.R17`).  A bare name resolves, in this order, to: the
+    extra-rule modules the unit names with `//@ rules-from`, the module whose file name matches the unit name
+    (U-JOIN -> ujoin.py / join.py, U-RECONPLAN -> recon.py), the core catalogue, and finally an extra rule if exactly one module
+    exports that name."""
+    core, extra = _load_rules()
+    out = {}
+    for m, rs in extra.items():
+        for k, f in rs.items():
+            out["%s.%s" % (m, k)] = f
+    counts = {}
+    for m, rs in extra.items():
+        for k in rs:
+            counts.setdefault(k, []).append(m)
+    for k, ms in counts.items():
+        if len(ms) == 1:
+            out[k] = extra[ms[0]][k]
+    out.update(core)
+    pref = list(prefer)
+    if unit_name:
+        base = unit_name.lower()
+        if base.startswith("u-"):
+            base = base[2:]
+        base = base.replace("-", "")
+        for m in extra:
+            if m == base or m == "u" + base or base.startswith(m) or ("u" + base).startswith(m):
+                pref.append(m)
+    for m in reversed(pref):
+        if m in extra:
+            out.update(extra[m])
+    return out
